@@ -47,7 +47,7 @@ def stages(tier, seed):
             ("dyn", "{28,29,1,2}", 4 if big else 3, 1), ("invalidlit", "{30,31,32}", 4 if big else 3, 2), ("sametext", "{33,34,35,1}", 4 if big else 3, 2),
             ("respread", "{36,37,38,39}", 4 if big else 3, 2), ("selfres", "{40,41,1}", 4 if big else 3, 2),
             ("layout", "{1,42,16,43}", 4 if big else 3, 2), ("locations", "{44,45,46,47}", 4 if big else 3, 2),
-            ("noop", "{9,48,49,50}", 4 if big else 3, 2)]
+            ("noop", "{9,48,49,50}", 4 if big else 3, 2), ("optype", "{51,52,53,54}", 4 if big else 3, 2)]
     for name, pool, hlen, mx in fams:
         out.append(c06_family(name, pool, hlen, mx))
         out.append(c06_trace(name))
@@ -58,7 +58,7 @@ PROPS = {"C06": dict(
     stages=stages, level="model_checking",
     rule="(1) TLC checks Bound/LRUWellFormed/CountersInv/Transparent on PlanCache.tla for 2 goroutines, 3 keys, 2 schemas, "
          "MaxEntries 2 with a sound key function, and exhibits the Transparent violation for a conflating one; (2) TLC "
-         "enumerates ALL histories of Get/Reset of length 3-4 over sub-pools of a 50-query pool (pairs differing in one "
+         "enumerates ALL histories of Get/Reset of length 3-4 over sub-pools of a 54-query pool (pairs differing in one "
          "literal, directive, default value, alias, argument name/order, operation name, enum/string/list/object literals, "
          "literals inside fragments, an invalid query) x 2 schema instances with MaxEntries 1-2; the harness plays each "
          "history with Normalize off, on, a nil cache and an over-size limit, compares hit/miss/stale/length with the LRU "
@@ -76,6 +76,6 @@ MANIFEST_TEXT = {"C06": dict(
          "configurations) where hit/miss permission, entry counts, returned synthetic arguments and the response must agree "
          "with the model and with from-scratch execution; hook events recorded under the cache mutex must be a behaviour of "
          "the LRU machine.",
-    note="Trusted: TLC, PlanCache.tla, the hand-assigned ideal classes of the 50 pool queries, the verif hooks in "
+    note="Trusted: TLC, PlanCache.tla, the hand-assigned ideal classes of the 54 pool queries, the verif hooks in "
          "plan_cache.go (lock-order logging). Bounded history length and pool.",
     technique="TLA+ LRU state machine (TLC) + exhaustive Get/Reset histories replayed differentially + hook-event trace validation")}
